@@ -440,9 +440,13 @@ impl<'a> FieldParser<'a> {
                 self.check_size(&span, &quote!(#size_field));
                 let parse_element =
                     self.parse_array_element(&format_ident!("head"), width, type_id, decl);
+                // A padded array is parsed from its own `head` span, which is
+                // not used past the array: shadowing it with the array octets
+                // is enough, and re-assigning it would select the padding.
+                let update_span = padding_size.is_none().then(|| quote! { #span = tail; });
                 self.tokens.extend(quote! {
                     let (mut head, tail) = #span.split_at(#size_field);
-                    #span = tail;
+                    #update_span
                     let mut #id = Vec::new();
                     while !head.is_empty() {
                         #id.push(#parse_element?);
